@@ -345,7 +345,9 @@ def tool_variants(b, img):
         "peek": [("dumpe2fs-h", lambda n: [de, "-h", img]), ("dumpe2fs", lambda n: [de, img]), ("dumpe2fs-mi", lambda n: [de, "-m", "-i", img]),
                  ("debugfs-c-dump", lambda n: [dbg, "-c", "-R", "dump_mmp", img]), ("debugfs-ro-dump", lambda n: [dbg, "-R", "dump_mmp", img])],
         "fsckn": [("e2fsck-fn", lambda n: [fsck, "-fn", img])],
-        "skip": [("tune2fs-f-c", lambda n: [t2, "-f", "-c", str(40 + n), img]), ("debugfs-ro", lambda n: [dbg, "-R", "stats", img]),
+        # (no writing tool here: two forced writers overlapping damage the superblock checksum -- ext2fs_flush writes only the words that
+        #  changed against a stale copy -- and that is outside the MMP block's protocol)
+        "skip": [("debugfs-ro", lambda n: [dbg, "-R", "stats", img]),
                  ("tune2fs-l", lambda n: [t2, "-l", img]), ("debugfs-c", lambda n: [dbg, "-c", "-R", "stats", img])],
         "clear": [("tune2fs-clear", lambda n: [t2, "-f", "-E", "clear_mmp", img])],
     }
@@ -424,11 +426,13 @@ class Run:
         self.variants = tool_variants(b, self.imgpath)
         self.b = b
         self.kinds = {}
+        m = re.search(r"base_(\d+)_(\d+)_", os.path.basename(base))
+        self.mkival = int(m.group(2)) if m else self.img.sbi      # the interval in force when the block was made (make_base)
 
     def lines(self):
         """the controller's events as lines of Trace_Mmp"""
         first = self.first
-        out = [json.dumps(dict(e="I", n=0, blk=first, sbi=self.img.sbi, now=0, fail=False), sort_keys=True)]
+        out = [json.dumps(dict(e="I", n=0, blk=first, sbi=self.img.sbi, mkival=self.mkival, now=0, fail=False), sort_keys=True)]
         for ev in self.ctl.trace:
             d = dict(ev)
             d["fail"] = self.fail(d["n"], d.get("rc", -1)) if d.get("next") == "X" else False
@@ -521,6 +525,7 @@ def replay_schedule(work, b, so, base, sched, polls, rng, tag, samehost=False, v
     steps = sched["steps"]
     r = Run(work, b, so, base, tag)
     div = None
+    late_close = []
     try:
         r.start()
         if r.img.sbi != sched["sbi"]:
@@ -556,13 +561,18 @@ def replay_schedule(work, b, so, base, sched, polls, rng, tag, samehost=False, v
                 if (ev["next"], ev["dur"]) != (s["next"], s["dur"]):
                     bad.append("what the node waits for next")
                 if ev["next"] == "X" and s["next"] == "X" and r.fail(n, ev["rc"]) != (s["res"] != "ok"):
-                    bad.append("exit status %d for result %s" % (ev["rc"], s["res"]))
+                    if s["kind"] == "fsck" and s["res"] != "ok" and s["pc"] == "held":
+                        late_close.append(dict(step=i, res=s["res"], rc=ev["rc"]))      # known finding FsckIgnoresCloseError
+                    else:
+                        bad.append("exit status %d for result %s" % (ev["rc"], s["res"]))
             if bad:
                 div = dict(step=i, what="; ".join(bad), expect=dict(blk=exp_blk, next=s["next"], dur=s["dur"], res=s["res"], pc=s["pc"], n=n, a=a), got=got)
                 break
         lines = r.lines()
         outs = {n: open(os.path.join(r.dir, "node%d.out" % n), "rb").read().decode("latin1")[-600:] for n in r.ctl.procs}
-        return lines, div, dict(outs=outs, kinds=dict(r.kinds))
+        if div is not None and any("Superblock checksum does not match" in o for o in outs.values()):
+            div["uncounted"] = "a forced writer (tune2fs -f) overlapped another writer and the superblock checksum is wrong: outside the protocol of the MMP block"
+        return lines, div, dict(outs=outs, kinds=dict(r.kinds), late_close=late_close)
     finally:
         r.close(); r.cleanup()
 
@@ -891,6 +901,11 @@ def _run(tier, ev, vd, work, rng):
         sk = sched_key(d)
         lines, div, info = replay_schedule(work, b, so, bases[key], d, polls, random.Random(seed() * 1000 + i), "r%d" % i)
         nrep += 1
+        for lc in info["late_close"]:
+            vd.violation("FsckIgnoresCloseError", "e2fsck exits %d although its final ext2fs_close_free failed with %s" % (lc["rc"], lc["res"]), dict(kind="schedule", schedule=d, origin=simcfg))
+        if div is not None and div.get("uncounted"):
+            ev.cov["replays_not_counted"] = ev.cov.get("replays_not_counted", 0) + 1
+            continue
         if div is not None:
             # once more, to keep a hiccup of the machine out of the verdict
             lines2, div2, info2 = replay_schedule(work, b, so, bases[key], d, polls, random.Random(seed() * 1000 + i), "r%dc" % i)
